@@ -28,9 +28,13 @@ TStdout == /\ IsEvent("Stdout")
            /\ stdout' = Append(stdout, Ev.kind)
            /\ UNCHANGED <<tool, input, extra, phase, outfile, exit>>
 
+\* (a file of an earlier export that the run left exactly as it was is not an output of the run: the tool may refuse an
+\*  unconvertible project without touching it; a file it did write must be the model)
 TOutFile == /\ IsEvent("OutFile")
-            /\ Chk("OutputFileIsTheLibraryModel", Ev.kind = "json" /\ (input # "project" \/ Ev.equal))
-            /\ outfile' = Ev.kind
+            /\ LET untouched == "untouched" \in DOMAIN Ev /\ Ev.untouched IN
+               /\ Chk("OutputFileIsTheLibraryModel", untouched \/ (Ev.kind = "json" /\ (input # "project" \/ Ev.equal)))
+               /\ Chk("ConvertibleProjectReplacesEarlierExport", ~(untouched /\ input = "project"))
+               /\ outfile' = IF untouched THEN "absent" ELSE Ev.kind
             /\ UNCHANGED <<tool, input, extra, phase, stdout, exit>>
 
 TExit == /\ IsEvent("Exit")
